@@ -31,7 +31,7 @@ fn pool_case(out: &mut Out, kind: PoolKind, funded: bool, fl: u32, p: u32) {
         let (mut a, mut b) = match (deploy(kind), deploy(kind)) { (Ok(a), Ok(b)) => (a, b), _ => return };
         prep_pool(&mut a, funded);
         prep_pool(&mut b, funded);
-        let x = 7_001u128;
+        let x = 7_001u128 + ((fl + p) % 2) as u128;   // odd: proceeds directed to the fee collector; even: to the trader
         let replay = json!({"kind": "pool_gate", "pool": kind.name(), "state": if funded { "funded" } else { "empty" },
             "switches_deposits_withdrawals_swaps": [flags.0, flags.1, flags.2], "switch_bits": fl, "funded": funded, "pool_index": kind.index(), "path": path_name(p), "path_index": p, "amount_scale": x.to_string()});
         if a.set_flags(OWNER, flags) != 0 || a.flags() != flags { out.monitor_fail("C17", "the owner could not set the pause switches", replay.clone()); return; }
